@@ -146,12 +146,23 @@ def check(chk):
         if node.kind == 'join' and c and c[0] == 'sent':
             return ('looped', c[1], c[2])
         return c
-    fl2 = Flow(g, None, step)
+    fl2 = Flow(g, ('idle', False, False), step)
     bad = set()
     for n in g.nodes:
         for facts, c in fl2.at(n):
             if c and c[0] == 'looped' and not (c[1] and c[2]):
                 bad.add(c)
+    if not any(c and c[0] == 'looped' for n in g.nodes for _f, c in fl2.at(n)):
+        raise AnalysisError('process_io_buffer: the dispatch never reaches the loop head again')
+    if bad and all(b[1] for b in bad):
+        # the clearing may live in the callee, provided every normal exit of process_msg has performed it
+        pmf_ = conn.func('Connection.process_msg')
+        from ..sem import try_body_may_raise
+        gpm = CFG(pmf_, may_raise=try_body_may_raise(pmf_))
+        flpm = Flow(gpm, False, lambda n, c: True if (n.kind == 'stmt' and n.ast is not None and src(n.ast).startswith('self._current_frame = None')) else c)
+        exits = [c for n in gpm.nodes if n.kind in ('exit',) for _f, c in flpm.at(n)]
+        if exits and all(exits):
+            bad = set()
     chk.judge(not bad, 'C05.reset', pib, 'after process_msg: reset_cql_frame_buffer() and _current_frame = None before the next iteration',
               'the loop continues after a dispatch without %s' % ('resetting the frame buffer' if any(not b[1] for b in bad) else 'clearing _current_frame'))
     rcf = conn.func('_ConnectionIOBuffer.reset_cql_frame_buffer')
